@@ -338,7 +338,9 @@ pub fn run(ctx: &Ctx) {
             // buffer capacities (the document as is, and behind leading whitespace / a declaration)
             let lead = format!("\n  {}", plain);
             let decl = format!("<?xml version=\"1.0\"?>\n{}\n", plain);
-            for (text, cap) in (1..=plain.len().max(1)).map(|c| (&plain, c)).chain((1..=8).map(|c| (&lead, c))).chain((1..=8).map(|c| (&decl, c))) {
+            // a byte order mark: the reader strips it only when its first read returns at least three bytes
+            let bom = format!("\u{feff}{}", plain);
+            for (text, cap) in (1..=plain.len().max(1)).map(|c| (&plain, c)).chain((1..=8).map(|c| (&lead, c))).chain((1..=8).map(|c| (&decl, c))).chain((1..=8).map(|c| (&bom, c))) {
                 let run = || -> Result<String, String> {
                     let el = subject::parse_reader(BufReader::with_capacity(cap, text.as_bytes()), &RCfg::default()).map_err(|e| e.to_string())?;
                     Ok(subject::render_all(&el))
